@@ -432,3 +432,30 @@ func VerifC34Embed() {
 	rt.Reach("embedded")
 	verifC34Check([]rune(line))
 }
+
+var (
+	verifC34Lists     = []string{`["out","["]`, `["rm"]`, `["out","rm","["]`, `[]`, `["x","out"]`}
+	verifC34ListLines = []string{"out x | [ ", "rm x | [ ", "rm x; out ", "out x -> [ ", "x | [ ", "out ${rm} | [ ", "rm | out | [ "}
+)
+
+// VerifC34List: the safe list is configuration (`config set shell safe-commands ...`): it is
+// written twice (any two lists of the pool, through the config setter parser.WriteSafeCmds) and
+// the gate is then checked against the list as it stands - a command taken off the list must not
+// be treated as safe any longer, a command put on it may be.
+func VerifC34List() {
+	orig := parser.GetSafeCmds()
+	restore := "["
+	for i, c := range orig {
+		if i > 0 {
+			restore += ","
+		}
+		restore += "\"" + c + "\""
+	}
+	restore += "]"
+	defer parser.WriteSafeCmds(restore)
+
+	rt.Assert(parser.WriteSafeCmds(verifC34Lists[rt.Choice("first", len(verifC34Lists))]) == nil, "the safe list cannot be written")
+	rt.Assert(parser.WriteSafeCmds(verifC34Lists[rt.Choice("second", len(verifC34Lists))]) == nil, "the safe list cannot be written")
+	rt.Reach("list-written")
+	verifC34Check([]rune(verifC34ListLines[rt.Choice("line", len(verifC34ListLines))]))
+}
